@@ -310,14 +310,17 @@ TOLERANCE = Fraction(1, 10**10)
 
 
 def overdraft_verdict(txs: List[Tx]) -> Tuple[str, Optional[Tuple[str, str]]]:
-    """C08 three-valued verdict, order-independent inside an instant.
+    """C08 verdict from the rows, independent of the processing order inside an instant.
 
     'reject'  : some account's end-of-instant balance < -1e-10 (then the last debit of that instant is
                 checked below that value under any processing order of the instant).
     'accept'  : no account is below 0 at any point under the most pessimistic order inside each instant
                 (acquisitions first -- a same-instant buy+sell is never an overdraft -- then all debits,
                 then transfer credits).
-    'undecided': anything else (tolerance band, same-instant transfer chains).
+    'accept_same_instant': every end-of-instant balance is >= 0 (so "no account ever goes negative" at any
+                moment in time), but some debit is covered only thanks to a transfer credited at the very
+                same instant; `who` is that account.
+    'undecided': the tolerance band [-1e-10, 0).
     """
     by_us: Dict[int, List[Tx]] = {}
     for t in txs:
@@ -339,7 +342,7 @@ def overdraft_verdict(txs: List[Tx]) -> Tuple[str, Optional[Tuple[str, str]]]:
                 debits[(t.from_ex, t.from_ho)] = debits.get((t.from_ex, t.from_ho), Fraction(0)) + t.sent
                 credits_tr[(t.to_ex, t.to_ho)] = credits_tr.get((t.to_ex, t.to_ho), Fraction(0)) + t.received
         accounts = set(credits_in) | set(credits_tr) | set(debits)
-        for acc in accounts:
+        for acc in sorted(accounts):
             start = bal.get(acc, Fraction(0))
             pessimistic = start + credits_in.get(acc, Fraction(0)) - debits.get(acc, Fraction(0))
             end = pessimistic + credits_tr.get(acc, Fraction(0))
@@ -347,7 +350,48 @@ def overdraft_verdict(txs: List[Tx]) -> Tuple[str, Optional[Tuple[str, str]]]:
             if acc in debits:
                 if end < -TOLERANCE:
                     return "reject", acc
-                if pessimistic < 0 and verdict == "accept":
-                    verdict = "undecided"
-                    who = acc
+                if end < 0:
+                    if verdict != "undecided":
+                        verdict, who = "undecided", acc
+                elif pessimistic < 0 and verdict == "accept":
+                    verdict, who = "accept_same_instant", acc
     return verdict, who
+
+
+def same_instant_transfer_chain_accounts(txs: List[Tx]) -> List[Tuple[str, str]]:
+    """Accounts that, at one instant, are debited by a transfer and credited by another transfer, the debit being covered only
+    thanks to that credit (A->X and X->B with identical timestamps): whether rp2 sees X negative depends on the order in which
+    the two same-instant transfers are listed (finding F12)."""
+    by_us: Dict[int, List[Tx]] = {}
+    for t in txs:
+        by_us.setdefault(t.us, []).append(t)
+    bal: Dict[Tuple[str, str], Fraction] = {}
+    result: List[Tuple[str, str]] = []
+    for us in sorted(by_us):
+        group = by_us[us]
+        delta: Dict[Tuple[str, str], Fraction] = {}
+        non_transfer: Dict[Tuple[str, str], Fraction] = {}
+        tr_debit: Dict[Tuple[str, str], Fraction] = {}
+        tr_credit: Dict[Tuple[str, str], Fraction] = {}
+        for t in group:
+            if t.table == "in":
+                non_transfer[(t.ex, t.ho)] = non_transfer.get((t.ex, t.ho), Fraction(0)) + t.crypto_in
+            elif t.table == "out":
+                pass  # rp2 applies same-instant OUT debits after every transfer of the instant
+            elif (t.from_ex, t.from_ho) != (t.to_ex, t.to_ho):
+                tr_debit[(t.from_ex, t.from_ho)] = tr_debit.get((t.from_ex, t.from_ho), Fraction(0)) + t.sent
+                tr_credit[(t.to_ex, t.to_ho)] = tr_credit.get((t.to_ex, t.to_ho), Fraction(0)) + t.received
+        for acc in set(tr_debit) & set(tr_credit):
+            if bal.get(acc, Fraction(0)) + non_transfer.get(acc, Fraction(0)) - tr_debit[acc] < 0:
+                result.append(acc)
+        for t in group:
+            if t.table == "in":
+                delta[(t.ex, t.ho)] = delta.get((t.ex, t.ho), Fraction(0)) + t.crypto_in
+            elif t.table == "out":
+                delta[(t.ex, t.ho)] = delta.get((t.ex, t.ho), Fraction(0)) - t.out - t.fee
+            else:
+                delta[(t.from_ex, t.from_ho)] = delta.get((t.from_ex, t.from_ho), Fraction(0)) - t.sent
+                delta[(t.to_ex, t.to_ho)] = delta.get((t.to_ex, t.to_ho), Fraction(0)) + t.received
+        for acc, change in delta.items():
+            bal[acc] = bal.get(acc, Fraction(0)) + change
+    return result
